@@ -1,6 +1,8 @@
-(* Stages B and C, part 1: Compiler.compile_program on programs over top-level variables emits exactly [pcode], and
-   leaves a root table that maps the variables, in declaration order, to the global slots 0, 1, 2 ... plus one empty
-   block table per branch of a conditional. *)
+(* Stages B-D, part 1: Compiler.compile_program on programs over top-level variables emits exactly [pcode]: global
+   slots in declaration order, one block table per branch / loop / loop body (however deeply nested), jumps,
+   the PopTop / Nil glue between statements.  The symbol tables are described by an invariant: the root table maps the
+   variables declared so far to the global slots 0, 1, 2 ...; every other table is an empty block table whose parent
+   is an earlier table, so every name resolves, through any chain of blocks, to its global slot. *)
 From Coq Require Import List ZArith NArith Bool Arith Lia.
 Require Import RV.model.Syntax RV.model.Compiler RV.model.ScalarFrag RV.model.VarProg RV.proofs.BackendProofs RV.proofs.VarProgFacts.
 Import ListNotations.
@@ -22,120 +24,200 @@ Proof.
   unfold insert_symbol, bind, get_tab, get, set_tab, ret. cbn. rewrite Ha. cbn. reflexivity.
 Qed.
 
+Lemma nth_cset_same (A : Type) (l : list A) i v d : i < length l -> nth i (Compiler.list_set l i v) d = v.
+Proof. revert i; induction l as [|x l IH]; intros [|i] H; cbn in *; try lia; [reflexivity|apply IH; lia]. Qed.
+Lemma nth_cset_other (A : Type) (l : list A) i j v d : i <> j -> nth j (Compiler.list_set l i v) d = nth j l d.
+Proof. revert i j; induction l as [|x l IH]; intros [|i] [|j] H; cbn; try reflexivity; try lia. apply IH. lia. Qed.
+Lemma length_cset (A : Type) (l : list A) i v : length (Compiler.list_set l i v) = length l.
+Proof. revert i; induction l as [|x l IH]; intros [|i]; cbn; auto. Qed.
+
+Lemma patch_I l : forall off a b, patch off a b (I l) = I l.
+Proof. induction l as [|x l IH]; intros off a b; [reflexivity|]. cbn [I map patch]. f_equal. apply IH. Qed.
+
 Section Names.
   Variable names : list (list N).
   Hypothesis names_nodup : NoDup names.
 
-  (* the root table after n declarations and m blocks *)
-  Definition root_tb (n m : nat) : table :=
-    {| tb_id := root_id; tb_parent := None; tb_nchildren := m;
-       tb_byname := map (fun i => (nth i names [], sym_of names i)) (rev (seq 0 n));
-       tb_freebyname := []; tb_syms := map (sym_of names) (seq 0 n); tb_free := []; tb_block := false |}.
-  (* the j-th block opened directly under the root *)
-  Definition block_j (j : nat) : table :=
-    {| tb_id := root_id ++ [46%N] ++ dec j; tb_parent := Some 0; tb_nchildren := 0; tb_byname := [];
-       tb_freebyname := []; tb_syms := []; tb_free := []; tb_block := true |}.
-  Definition blocks (m : nat) : list table := map block_j (seq 0 m).
-
-  Definition main_w (ks : list konst) : wcode :=
-    {| w_id := main_id; w_name := main_id; w_named := false; w_functab := 0; w_tab := 0;
+  (* the main code object and the compiler state around it *)
+  Definition mw (t : nat) (ks : list konst) (loops : list (bool * nat)) : wcode :=
+    {| w_id := main_id; w_name := main_id; w_named := false; w_functab := 0; w_tab := t;
        w_consts := ks; w_names := []; w_children := []; w_pipe := false; w_funcid := [];
-       w_loops := []; w_root := true |}.
+       w_loops := loops; w_root := true |}.
+  Definition mkst (tabs : list table) (t : nat) (ks : list konst) (loops : list (bool * nat)) : cstate :=
+    {| st_tabs := tabs; st_stack := [mw t ks loops]; st_funcindex := 0 |}.
 
-  (* the compiler state: n variables, m blocks so far, current table t (0 = root), constants ks *)
-  Definition gstate (n m t : nat) (ks : list konst) : cstate :=
-    {| st_tabs := root_tb n m :: blocks m; st_stack := [with_tab (main_w ks) t]; st_funcindex := 0 |}.
-  Notation pstate n m ks := (gstate n m 0 ks).
+  Definition root_names (n : nat) : list (list N * symbol) := map (fun i => (nth i names [], sym_of names i)) (rev (seq 0 n)).
+  (* a block table: empty, hanging under an earlier table *)
+  Definition blk_ok (j : nat) (tb : table) : Prop :=
+    tb_byname tb = [] /\ tb_freebyname tb = [] /\ exists p, tb_parent tb = Some p /\ p < j.
+  Definition tabs_good (n : nat) (tabs : list table) : Prop :=
+    0 < length tabs /\
+    tb_parent (nth 0 tabs dummy_table) = None /\ tb_block (nth 0 tabs dummy_table) = false /\
+    tb_byname (nth 0 tabs dummy_table) = root_names n /\
+    tb_syms (nth 0 tabs dummy_table) = map (sym_of names) (seq 0 n) /\
+    forall j, 0 < j < length tabs -> blk_ok j (nth j tabs dummy_table).
+  (* tables are only ever added; the parent links of the existing ones stay *)
+  Definition ext (tabs tabs' : list table) : Prop :=
+    length tabs <= length tabs' /\
+    forall j, j < length tabs -> tb_parent (nth j tabs' dummy_table) = tb_parent (nth j tabs dummy_table).
+  Lemma ext_refl tabs : ext tabs tabs.
+  Proof. split; [lia|reflexivity]. Qed.
+  Lemma ext_trans a b c : ext a b -> ext b c -> ext a c.
+  Proof. intros [H1 H2] [H3 H4]. split; [lia|]. intros j Hj. rewrite H4 by lia. apply H2. exact Hj. Qed.
 
-  Lemma init_is_pstate : init_state [] = pstate 0 0 [].
+  Lemma init_is_mkst : init_state [] = mkst (st_tabs (init_state [])) 0 [] [].
   Proof. reflexivity. Qed.
+  Lemma init_tabs_good : tabs_good 0 (st_tabs (init_state [])).
+  Proof. unfold tabs_good. cbn. repeat split; try lia. Qed.
 
   Lemma beq_refl (a : list N) : Compiler.beq a a = true.
   Proof. unfold Compiler.beq. destruct (list_eq_dec N.eq_dec a a); [reflexivity|contradiction]. Qed.
   Lemma beq_neq (a b : list N) : a <> b -> Compiler.beq a b = false.
   Proof. intros H. unfold Compiler.beq. destruct (list_eq_dec N.eq_dec a b); [contradiction|reflexivity]. Qed.
-
   Lemma names_distinct i j : i < length names -> j < length names -> i <> j -> nth i names [] <> nth j names [].
   Proof. intros Hi Hj Hne Heq. apply Hne. exact (proj1 (NoDup_nth names []) names_nodup i j Hi Hj Heq). Qed.
 
-  Lemma byname_lookup n m : n <= length names -> forall i, i < n ->
-    Compiler.assoc (nth i names []) (tb_byname (root_tb n m)) = Some (sym_of names i).
+  Lemma root_names_S n : root_names (S n) = (nth n names [], sym_of names n) :: root_names n.
+  Proof. unfold root_names. rewrite seq_S, rev_app_distr. reflexivity. Qed.
+  Lemma byname_lookup n : n <= length names -> forall i, i < n ->
+    Compiler.assoc (nth i names []) (root_names n) = Some (sym_of names i).
   Proof.
     induction n as [|n IH]; intros Hn i Hi; [lia|].
-    cbn [root_tb tb_byname]. rewrite seq_S, rev_app_distr. cbn [rev app map Nat.add Compiler.assoc].
+    rewrite root_names_S. cbn [Compiler.assoc].
     destruct (Nat.eq_dec i n) as [->|Hne].
     - rewrite beq_refl. reflexivity.
     - rewrite beq_neq by (apply names_distinct; lia). apply (IH ltac:(lia) i ltac:(lia)).
   Qed.
-
-  Lemma byname_fresh n m : n < length names ->
-    Compiler.assoc (nth n names []) (tb_byname (root_tb n m)) = None.
+  Lemma byname_fresh n : n < length names -> Compiler.assoc (nth n names []) (root_names n) = None.
   Proof.
-    intros Hn. cbn [root_tb tb_byname].
-    assert (H : forall k, k <= n -> Compiler.assoc (nth n names []) (map (fun i => (nth i names [], sym_of names i)) (rev (seq 0 k))) = None).
+    intros Hn.
+    assert (H : forall k, k <= n -> Compiler.assoc (nth n names []) (root_names k) = None).
     { induction k as [|k IH]; intros Hk; [reflexivity|].
-      rewrite seq_S, rev_app_distr. cbn [rev app map Nat.add Compiler.assoc].
+      rewrite root_names_S. cbn [Compiler.assoc].
       rewrite beq_neq by (apply names_distinct; lia). apply IH. lia. }
     apply H. lia.
   Qed.
 
-  Lemma gstate_tabs_ok n m t ks : n <= length names -> tabs_ok names (st_tabs (gstate n m t ks)) n.
-  Proof. intros Hn. split; [reflexivity|]. intros i Hi. exact (byname_lookup n m Hn i Hi). Qed.
+  (* ---------------------------------------------------------------- resolution through a chain of blocks *)
+  Lemma resolve_up_chain n tabs t active d i : tabs_good n tabs -> n <= length names -> i < n ->
+    forall an fuel, an < fuel -> an < length tabs ->
+    resolve_up fuel tabs t active d (nth i names []) (Some an) = Some (sym_of names i, Global, 0).
+  Proof.
+    intros [Hlen [Hrp [Hrb [Hby [Hsy Hblk]]]]] Hn Hi.
+    induction an as [an IH] using lt_wf_ind. intros fuel Hf Han.
+    destruct fuel as [|f]; [lia|]. cbn [resolve_up].
+    destruct (Nat.eq_dec an 0) as [->|Hnz].
+    - rewrite Hby, (byname_lookup n Hn i Hi). cbn [is_global]. rewrite Hrp. reflexivity.
+    - destruct (Hblk an ltac:(lia)) as [Hb [_ [p [Hp Hlt]]]]. rewrite Hb. cbn [Compiler.assoc]. rewrite Hp.
+      apply IH; lia.
+  Qed.
 
-  Lemma add_consts_gstate n m t ks ks' : add_consts (gstate n m t ks) ks' = gstate n m t (ks ++ ks').
+  Lemma resolve_good n tabs t ks loops i : tabs_good n tabs -> n <= length names -> t < length tabs -> i < n ->
+    resolve_cur (nth i names []) (mkst tabs t ks loops) =
+    inr ({| rs_sym := sym_of names i; rs_scope := Global; rs_depth := 0; rs_free := 0 |}, mkst tabs t ks loops).
+  Proof.
+    intros Hg Hn Ht Hi. pose proof Hg as [Hlen [Hrp [Hrb [Hby [Hsy Hblk]]]]].
+    unfold resolve_cur, bind, cur. cbn [mkst st_stack]. unfold resolve, bind, get, get_tab. cbv beta. cbn [mkst mw w_tab st_tabs].
+    destruct (Nat.eq_dec t 0) as [->|Hnz].
+    - rewrite Hby, (byname_lookup n Hn i Hi). unfold ret, fuel_of. cbn [is_global st_tabs]. rewrite Hrp. reflexivity.
+    - destruct (Hblk t ltac:(lia)) as [Hb [Hfb [p [Hp Hlt]]]]. rewrite Hb, Hfb, Hp. cbn [Compiler.assoc].
+      unfold fuel_of. cbn [st_tabs].
+      rewrite (resolve_up_chain n tabs t _ _ i Hg Hn Hi p (S (length tabs)) ltac:(lia) ltac:(lia)). reflexivity.
+  Qed.
+
+  Lemma add_consts_mkst tabs t ks loops ks' : add_consts (mkst tabs t ks loops) ks' = mkst tabs t (ks ++ ks') loops.
   Proof. reflexivity. Qed.
 
-  Lemma nth_blocks m j : j < m -> nth (S j) (root_tb 0 0 :: blocks m) dummy_table = block_j j.
-  Proof.
-    intros Hj. cbn [nth]. unfold blocks.
-    rewrite (nth_indep _ dummy_table (block_j 0)) by (rewrite map_length, seq_length; exact Hj).
-    rewrite map_nth, seq_nth by exact Hj. reflexivity.
-  Qed.
-
-  (* variables resolve to their global slot, at the root and inside a block *)
-  Lemma gstate_res_ok n m t ks : n <= length names -> t <= m -> res_ok names (gstate n m t ks) n.
-  Proof.
-    intros Hn Ht. destruct t as [|j].
-    - exact (res_ok_root names (gstate n m 0 ks) (main_w ks) [] n eq_refl eq_refl (gstate_tabs_ok n m 0 ks Hn)).
-    - apply (res_ok_block names (gstate n m (S j) ks) (with_tab (main_w ks) (S j)) [] n eq_refl).
-      + cbn [with_tab w_tab gstate st_tabs nth]. unfold blocks.
-        rewrite (nth_indep _ dummy_table (block_j 0)) by (rewrite map_length, seq_length; lia).
-        rewrite map_nth, seq_nth by lia. repeat split.
-      + exact (gstate_tabs_ok n m (S j) ks Hn).
-  Qed.
+  Lemma good_res_ok n tabs t ks loops : tabs_good n tabs -> n <= length names -> t < length tabs ->
+    res_ok names (mkst tabs t ks loops) n.
+  Proof. intros Hg Hn Ht kk i Hi. rewrite add_consts_mkst. apply (resolve_good n); assumption. Qed.
 
   (* expressions on the program state *)
-  Lemma compile_exp n m t ks e f : n <= length names -> t <= m -> wf n e = true -> height e <= f ->
-    compile f (embed names e) (gstate n m t ks) =
-    inr (I (fst (cexp (length ks) e)), gstate n m t (ks ++ snd (cexp (length ks) e))).
+  Lemma compile_exp n tabs t ks loops e f : tabs_good n tabs -> n <= length names -> t < length tabs ->
+    wf n e = true -> height e <= f ->
+    compile f (embed names e) (mkst tabs t ks loops) =
+    inr (I (fst (cexp (length ks) e)), mkst tabs t (ks ++ snd (cexp (length ks) e)) loops).
   Proof.
-    intros Hn Ht Hwf Hf.
-    rewrite (compile_scalar_res names n e f (gstate n m t ks) (with_tab (main_w ks) t) [] eq_refl
-               (gstate_res_ok n m t ks Hn Ht) Hwf Hf).
+    intros Hg Hn Ht Hwf Hf.
+    rewrite (compile_scalar_res names n e f (mkst tabs t ks loops) (mw t ks loops) [] eq_refl
+               (good_res_ok n tabs t ks loops Hg Hn Ht) Hwf Hf).
     reflexivity.
   Qed.
 
-  Lemma root_tb_S n m : root_tb (S n) m =
-    {| tb_id := root_id; tb_parent := None; tb_nchildren := m;
-       tb_byname := (nth n names [], sym_of names n) :: tb_byname (root_tb n m);
-       tb_freebyname := []; tb_syms := tb_syms (root_tb n m) ++ [sym_of names n]; tb_free := []; tb_block := false |}.
+  (* ---------------------------------------------------------------- declarations *)
+  Lemma insert_next n tabs ks loops : tabs_good n tabs -> n < length names ->
+    exists tabs', insert_symbol 0 (nth n names []) false (mkst tabs 0 ks loops) = inr (sym_of names n, mkst tabs' 0 ks loops) /\
+                  tabs_good (S n) tabs' /\ ext tabs tabs'.
   Proof.
-    unfold root_tb. cbn [tb_byname tb_syms]. rewrite seq_S, map_app, rev_app_distr. reflexivity.
+    intros [Hlen [Hrp [Hrb [Hby [Hsy Hblk]]]]] Hn.
+    destruct tabs as [|tb rest]; [cbn in Hlen; lia|]. cbn [nth] in Hrp, Hrb, Hby, Hsy.
+    eexists. split.
+    - unfold mkst. rewrite (insert_root tb rest _ _ _ _ Hrb ltac:(rewrite Hby; exact (byname_fresh n Hn))).
+      rewrite Hsy, map_length, seq_length. reflexivity.
+    - split.
+      + unfold tabs_good. cbn [nth length tb_parent tb_block tb_byname tb_syms].
+        split; [lia|]. split; [exact Hrp|]. split; [exact Hrb|].
+        split; [rewrite Hby, root_names_S; reflexivity|].
+        split; [rewrite seq_S, map_app; reflexivity|].
+        intros j Hj. destruct j as [|j]; [lia|]. exact (Hblk (S j) Hj).
+      + split; [cbn [length]; lia|]. intros j Hj. destruct j as [|j]; reflexivity.
   Qed.
 
-  Lemma root_syms_length n m : length (tb_syms (root_tb n m)) = n.
-  Proof. cbn [root_tb tb_syms]. rewrite map_length, seq_length. reflexivity. Qed.
-
-  Arguments root_tb : simpl never.
-
-  Lemma insert_next n m ks : n < length names ->
-    insert_symbol 0 (nth n names []) false (pstate n m ks) = inr (sym_of names n, pstate (S n) m ks).
+  (* ---------------------------------------------------------------- blocks *)
+  Lemma open_block_good n tabs t ks loops : tabs_good n tabs -> t < length tabs ->
+    exists tabs', open_block (mkst tabs t ks loops) = inr (tt, mkst tabs' (length tabs) ks loops) /\
+                  tabs_good n tabs' /\ ext tabs tabs' /\ length tabs' = S (length tabs) /\
+                  tb_parent (nth (length tabs) tabs' dummy_table) = Some t.
   Proof.
-    intros Hn. unfold gstate. rewrite (insert_root (root_tb n m) _ _ _ _ _ eq_refl (byname_fresh n m Hn)).
-    rewrite root_syms_length, root_tb_S. reflexivity.
+    intros [Hlen [Hrp [Hrb [Hby [Hsy Hblk]]]]] Ht.
+    eexists. split.
+    - unfold open_block, bind, cur, new_child, get_tab, set_tab, set_cur, bind.
+      cbn [mkst st_stack st_tabs mw w_tab with_tab st_funcindex]. rewrite length_cset. reflexivity.
+    - set (p := nth t tabs dummy_table).
+      set (p' := {| tb_id := tb_id p; tb_parent := tb_parent p; tb_nchildren := S (tb_nchildren p);
+                    tb_byname := tb_byname p; tb_freebyname := tb_freebyname p; tb_syms := tb_syms p;
+                    tb_free := tb_free p; tb_block := tb_block p |}).
+      assert (Hsame : forall j, j < length tabs ->
+                forall (P : table -> Prop), (P (nth j tabs dummy_table) -> P p' -> True) ->
+                tb_parent (nth j (Compiler.list_set tabs t p') dummy_table) = tb_parent (nth j tabs dummy_table) /\
+                tb_byname (nth j (Compiler.list_set tabs t p') dummy_table) = tb_byname (nth j tabs dummy_table) /\
+                tb_freebyname (nth j (Compiler.list_set tabs t p') dummy_table) = tb_freebyname (nth j tabs dummy_table) /\
+                tb_syms (nth j (Compiler.list_set tabs t p') dummy_table) = tb_syms (nth j tabs dummy_table) /\
+                tb_block (nth j (Compiler.list_set tabs t p') dummy_table) = tb_block (nth j tabs dummy_table)).
+      { intros j Hj P _. destruct (Nat.eq_dec t j) as [<-|Hne].
+        - rewrite nth_cset_same by exact Ht. repeat split; reflexivity.
+        - rewrite nth_cset_other by exact Hne. repeat split; reflexivity. }
+      assert (Hs : forall j, j < length tabs ->
+                tb_parent (nth j (Compiler.list_set tabs t p' ++ [ {| tb_id := tb_id p ++ [46%N] ++ dec (tb_nchildren p); tb_parent := Some t; tb_nchildren := 0;
+                                                                      tb_byname := []; tb_freebyname := []; tb_syms := []; tb_free := []; tb_block := true |} ]) dummy_table)
+                = tb_parent (nth j tabs dummy_table)).
+      { intros j Hj. rewrite app_nth1 by (rewrite length_cset; exact Hj). apply (Hsame j Hj (fun _ => True)). auto. }
+      split; [|split; [|split]].
+      + unfold tabs_good. rewrite app_length, length_cset. cbn [length].
+        rewrite !(app_nth1 _ _ dummy_table) by (rewrite length_cset; exact Hlen).
+        destruct (Hsame 0 Hlen (fun _ => True) ltac:(auto)) as [E1 [E2 [E3 [E4 E5]]]].
+        rewrite E1, E2, E4, E5.
+        split; [lia|]. split; [exact Hrp|]. split; [exact Hrb|]. split; [exact Hby|]. split; [exact Hsy|].
+        intros j Hj. destruct (Nat.eq_dec j (length tabs)) as [->|Hne].
+        * rewrite app_nth2 by (rewrite length_cset; lia). rewrite length_cset, Nat.sub_diag. cbn [nth].
+          split; [reflexivity|]. split; [reflexivity|]. exists t. split; [reflexivity|exact Ht].
+        * assert (Hjl : j < length tabs) by lia.
+          rewrite app_nth1 by (rewrite length_cset; exact Hjl).
+          destruct (Hsame j Hjl (fun _ => True) ltac:(auto)) as [F1 [F2 [F3 [F4 F5]]]].
+          destruct (Hblk j ltac:(lia)) as [G1 [G2 G3]].
+          unfold blk_ok. rewrite F1, F2, F3. split; [exact G1|]. split; [exact G2|exact G3].
+      + split; [rewrite app_length, length_cset; cbn [length]; lia|exact Hs].
+      + rewrite app_length, length_cset. cbn [length]. lia.
+      + rewrite app_nth2 by (rewrite length_cset; lia). rewrite length_cset, Nat.sub_diag. reflexivity.
   Qed.
 
-  (* ---------------------------------------------------------------- statements *)
+  Lemma close_block_to tabs j t ks loops : tb_parent (nth j tabs dummy_table) = Some t ->
+    close_block (mkst tabs j ks loops) = inr (tt, mkst tabs t ks loops).
+  Proof.
+    intros H. unfold close_block, bind, cur, get_tab, set_cur. cbn [mkst st_stack st_tabs mw w_tab]. rewrite H. reflexivity.
+  Qed.
+
+  (* ---------------------------------------------------------------- unfoldings of compile *)
   Lemma compile_NVar f name v : compile (S f) (NVar name v) =
     bind (compile f v) (fun a => bind cur (fun w => bind (insert_symbol (w_tab w) name false) (fun sym =>
       bind (store_sym sym) (fun st => ret (a ++ st))))).
@@ -166,181 +248,174 @@ Section Names.
     bind (compile f c) (fun a => bind (cblock f cns) (fun t => bind (cblock f al) (fun e =>
       ret (a ++ I [opPopJumpForwardIfFalse; (nlen t + 4)%N] ++ t ++ I [opJumpForward; (nlen e + 2)%N] ++ e)))).
   Proof. reflexivity. Qed.
-  (* ---------------------------------------------------------------- blocks *)
-  Lemma blocks_S m : blocks (S m) = blocks m ++ [block_j m].
-  Proof. unfold blocks. rewrite seq_S, map_app. reflexivity. Qed.
+  (* compileForCondition *)
+  Lemma compile_NFor_cond f e body : compile (S f) (NFor (Some (embed names e)) None None body) =
+    bind open_block (fun _ => bind (push_loop false) (fun _ =>
+      bind (compile f (embed names e)) (fun cc => bind (cblock f body) (fun b =>
+        bind pop_loop (fun _ => bind close_block (fun _ =>
+          let pre := cc ++ I [opPopJumpForwardIfFalse; (nlen b + 2 + 1 + 2 + 1)%N] in
+          let inner := pre ++ b ++ I [opPopTop] in
+          let jb := nlen inner in
+          ret (patch 0 (jb + 2) jb inner ++ I [opJumpBackward; jb; opNop]))))))).
+  Proof. destruct e; reflexivity. Qed.
 
-  Lemma blocks_length m : length (blocks m) = m.
-  Proof. unfold blocks. rewrite map_length, seq_length. reflexivity. Qed.
-
-  Lemma open_block_root n m ks : open_block (pstate n m ks) = inr (tt, gstate n (S m) (S m) ks).
-  Proof.
-    unfold open_block, bind, cur, new_child, get_tab, set_tab, set_cur, bind.
-    cbn [gstate st_stack st_tabs nth with_tab w_tab main_w list_set st_funcindex].
-    unfold gstate. rewrite blocks_S. cbn [length]. rewrite blocks_length.
-    reflexivity.
-  Qed.
-
-  Lemma close_block_last n m ks : close_block (gstate n (S m) (S m) ks) = inr (tt, pstate n (S m) ks).
-  Proof.
-    unfold close_block, bind, cur, get_tab, set_cur.
-    cbn [gstate st_stack st_tabs with_tab w_tab main_w].
-    assert (E : nth (S m) (root_tb n (S m) :: blocks (S m)) dummy_table = block_j m).
-    { cbn [nth]. unfold blocks. rewrite (nth_indep _ dummy_table (block_j 0)) by (rewrite map_length, seq_length; lia).
-      rewrite map_nth, seq_nth by lia. reflexivity. }
-    rewrite E. reflexivity.
-  Qed.
-
-  (* ---------------------------------------------------------------- the statements of a branch *)
-  Lemma pop_between_simple m0 : pop_between (embed_simple names m0) = if is_expr_simple m0 then [SI opPopTop] else [].
-  Proof. destruct m0; cbn [embed_simple is_expr_simple]; unfold pop_between; [reflexivity|rewrite (embed_is_expression names); reflexivity]. Qed.
-  Lemma nil_after_simple m0 : nil_after (embed_simple names m0) = if is_expr_simple m0 then [] else [SI opNil].
-  Proof. destruct m0; cbn [embed_simple is_expr_simple]; unfold nil_after; [reflexivity|rewrite (embed_is_expression names); reflexivity]. Qed.
-
-  Lemma compile_simple n m t ks m0 f :
-    n <= length names -> t <= m -> wf_simple n m0 = true -> height (simple_exp m0) <= f ->
-    compile (S f) (embed_simple names m0) (gstate n m t ks) =
-    inr (I (fst (simple_code (length ks) m0)), gstate n m t (ks ++ snd (simple_code (length ks) m0))).
-  Proof.
-    intros Hn Ht Hwf Hf. destruct m0 as [i e|e]; cbn [embed_simple simple_code wf_simple simple_exp] in *.
-    - apply andb_true_iff in Hwf. destruct Hwf as [Hi Hwf]. apply Nat.ltb_lt in Hi.
-      rewrite compile_NAssign_eq. unfold bind at 1.
-      rewrite (res_ok_here names (gstate n m t ks) n (with_tab (main_w ks) t) [] i eq_refl (gstate_res_ok n m t ks Hn Ht) Hi).
-      cbn [rs_sym sym_of sy_const]. unfold bind.
-      rewrite (compile_exp n m t ks e f Hn Ht Hwf Hf).
-      destruct (cexp (length ks) e) as [c kk]. cbn [fst snd].
-      unfold ret, store_res. cbn [rs_scope rs_sym sym_of sy_index]. rewrite I_app. reflexivity.
-    - rewrite (compile_exp n m t ks e (S f) Hn Ht Hwf ltac:(lia)). reflexivity.
-  Qed.
-
-  Lemma simples_height_cons m0 r : simples_height (m0 :: r) = Nat.max (height (simple_exp m0)) (simples_height r).
+  Lemma push_loop_mkst tabs t ks loops b : push_loop b (mkst tabs t ks loops) = inr (tt, mkst tabs t ks ((b, 0) :: loops)).
+  Proof. reflexivity. Qed.
+  Lemma pop_loop_mkst tabs t ks loops x : pop_loop (mkst tabs t ks (x :: loops)) = inr (tt, mkst tabs t ks loops).
   Proof. reflexivity. Qed.
 
-  Lemma cs_simples f n m t : n <= length names -> t <= m -> forall l ks, l <> [] ->
-    forallb (wf_simple n) l = true -> simples_height l <= f ->
-    cs_loop (S f) (map (embed_simple names) l) (gstate n m t ks) =
-    inr (I (fst (simples_code (length ks) l)), gstate n m t (ks ++ snd (simples_code (length ks) l))).
+  Lemma pop_between_stmt k s : pop_between (embed_stmt names k s) = if is_expr_stmt s then [SI opPopTop] else [].
+  Proof. destruct s; cbn [embed_stmt is_expr_stmt]; unfold pop_between; try reflexivity. rewrite embed_is_expression; reflexivity. Qed.
+  Lemma nil_after_stmt k s : nil_after (embed_stmt names k s) = if is_expr_stmt s then [] else [SI opNil].
+  Proof. destruct s; cbn [embed_stmt is_expr_stmt]; unfold nil_after; try reflexivity. rewrite embed_is_expression; reflexivity. Qed.
+
+  (* ---------------------------------------------------------------- statements, lists, blocks *)
+  (* what holds of one statement compiled with fuel S f *)
+  Definition stmt_ok (f : nat) : Prop :=
+    forall s k tabs t ks loops top,
+      sheight s <= f -> next_k k s <= length names -> wf_stmt top k s = true -> (top = true -> t = 0) ->
+      tabs_good k tabs -> t < length tabs ->
+      exists tabs', compile (S f) (embed_stmt names k s) (mkst tabs t ks loops) =
+                    inr (I (fst (stmt_code k (length ks) s)), mkst tabs' t (ks ++ snd (stmt_code k (length ks) s)) loops) /\
+                    tabs_good (next_k k s) tabs' /\ ext tabs tabs'.
+
+  Lemma cs_list f : stmt_ok f -> forall l k tabs t ks loops top,
+    l <> [] -> max_height l <= f -> k + ndecls l <= length names -> wf_stmts top k l = true -> (top = true -> t = 0) ->
+    tabs_good k tabs -> t < length tabs ->
+    exists tabs', cs_loop (S f) (embed_stmts names k l) (mkst tabs t ks loops) =
+                  inr (I (fst (pcode k (length ks) l)), mkst tabs' t (ks ++ snd (pcode k (length ks) l)) loops) /\
+                  tabs_good (k + ndecls l) tabs' /\ ext tabs tabs'.
   Proof.
-    intros Hn Ht. induction l as [|m0 r IH]; intros ks Hne Hwf Hh; [contradiction|].
-    cbn [forallb] in Hwf. apply andb_true_iff in Hwf. destruct Hwf as [Hw0 Hwr].
-    rewrite simples_height_cons in Hh.
-    pose proof (compile_simple n m t ks m0 f Hn Ht Hw0 ltac:(lia)) as Hc.
-    destruct r as [|m2 r2].
-    - cbn [map cs_loop]. rewrite simples_code_single. unfold bind. rewrite Hc.
-      destruct (simple_code (length ks) m0) as [c kk]. cbn [fst snd]. unfold ret.
-      rewrite nil_after_simple, I_app. destruct (is_expr_simple m0); reflexivity.
-    - assert (Hr : m2 :: r2 <> []) by discriminate.
-      change (map (embed_simple names) (m0 :: m2 :: r2))
-        with (embed_simple names m0 :: embed_simple names m2 :: map (embed_simple names) r2).
-      rewrite cs_loop_cons.
-      change (embed_simple names m2 :: map (embed_simple names) r2) with (map (embed_simple names) (m2 :: r2)).
-      unfold bind at 1. rewrite Hc.
-      destruct (simple_code (length ks) m0) as [c kk] eqn:Es. cbn [fst snd].
-      unfold bind at 1.
-      rewrite (IH (ks ++ kk) Hr Hwr ltac:(lia)).
-      rewrite app_length, simples_code_cons2, Es.
-      destruct (simples_code (length ks + length kk) (m2 :: r2)) as [cr kr]. cbn [fst snd].
-      unfold ret. rewrite pop_between_simple, <- app_assoc, !I_app.
-      destruct (is_expr_simple m0); reflexivity.
-  Qed.
-
-  (* a whole branch: opens block m, compiles the statements (Nil for none), closes the block *)
-  Lemma cblock_branch f n m ks l : n <= length names ->
-    forallb (wf_simple n) l = true -> simples_height l <= f ->
-    cblock (S f) (map (embed_simple names) l) (pstate n m ks) =
-    inr (I (fst (block_code (length ks) l)), pstate n (S m) (ks ++ snd (block_code (length ks) l))).
-  Proof.
-    intros Hn Hwf Hh. unfold cblock. unfold bind at 1. rewrite open_block_root.
-    destruct l as [|m0 r].
-    - cbn [map block_code fst snd]. unfold bind, ret. rewrite close_block_last, app_nil_r. reflexivity.
-    - assert (Hne : m0 :: r <> []) by discriminate.
-      change (match map (embed_simple names) (m0 :: r) with [] => ret (I [opNil]) | _ :: _ => cs_loop (S f) (map (embed_simple names) (m0 :: r)) end)
-        with (cs_loop (S f) (map (embed_simple names) (m0 :: r))).
-      unfold bind at 1.
-      rewrite (cs_simples f n (S m) (S m) Hn (le_n _) (m0 :: r) ks Hne Hwf Hh).
-      change (block_code (length ks) (m0 :: r)) with (simples_code (length ks) (m0 :: r)).
-      destruct (simples_code (length ks) (m0 :: r)) as [c kk]. cbn [fst snd].
-      unfold bind, ret. rewrite close_block_last. reflexivity.
-  Qed.
-  (* ---------------------------------------------------------------- top-level statements *)
-  Notation embed_stmt := (VarProgFacts.embed_stmt names).
-  Notation embed_stmts_cons := (VarProgFacts.embed_stmts_cons names).
-  Notation embed_is_expression := (VarProgFacts.embed_is_expression names).
-
-  (* every conditional opens two blocks *)
-  Definition next_m (m : nat) (s : stmt) : nat := match s with SIf _ _ _ => S (S m) | _ => m end.
-  Fixpoint nblocks (l : list stmt) : nat :=
-    match l with [] => 0 | SIf _ _ _ :: r => S (S (nblocks r)) | _ :: r => nblocks r end.
-  Lemma nblocks_cons m s r : next_m m s + nblocks r = m + nblocks (s :: r).
-  Proof. destruct s; cbn [next_m nblocks]; lia. Qed.
-
-  Lemma compile_stmt k m ks s f :
-    next_k k s <= length names -> wf_stmt k s = true -> stmt_height s <= f ->
-    compile (S f) (embed_stmt k s) (pstate k m ks) =
-    inr (I (fst (stmt_code k (length ks) s)), pstate (next_k k s) (next_m m s) (ks ++ snd (stmt_code k (length ks) s))).
-  Proof.
-    intros Hk Hwf Hf. destruct s as [e|i e|e|c t e]; cbn [VarProgFacts.embed_stmt stmt_code next_k next_m wf_stmt stmt_height] in *.
-    - (* x := e *)
-      rewrite compile_NVar. unfold bind at 1.
-      rewrite (compile_exp k m 0 ks e f ltac:(lia) ltac:(lia) Hwf Hf).
-      destruct (cexp (length ks) e) as [c kk]. cbn [fst snd].
-      unfold bind, cur. cbn [gstate st_stack main_w with_tab w_tab].
-      rewrite (insert_next k m (ks ++ kk) ltac:(lia)).
-      unfold store_sym, bind, is_root, cur, ret. cbn [gstate st_stack main_w with_tab w_root sym_of sy_index].
-      rewrite I_app. reflexivity.
-    - (* x = e *)
-      exact (compile_simple k m 0 ks (MSet i e) f ltac:(lia) ltac:(lia) Hwf Hf).
-    - (* e *)
-      exact (compile_simple k m 0 ks (MExpr e) f ltac:(lia) ltac:(lia) Hwf ltac:(cbn [simple_exp]; lia)).
-    - (* if c { t } else { e } *)
-      apply andb_true_iff in Hwf. destruct Hwf as [Hwct Hwe]. apply andb_true_iff in Hwct. destruct Hwct as [Hwc Hwt].
-      destruct f as [|f]; [lia|]. destruct f as [|f]; [lia|].
-      rewrite compile_NIf. unfold bind at 1.
-      rewrite (compile_exp k m 0 ks c (S (S f)) ltac:(lia) ltac:(lia) Hwc ltac:(lia)).
-      destruct (cexp (length ks) c) as [cc kc]. cbn [fst snd].
-      unfold bind at 1.
-      rewrite (cblock_branch (S f) k m (ks ++ kc) t ltac:(lia) Hwt ltac:(lia)). rewrite app_length.
-      destruct (block_code (length ks + length kc) t) as [ct kt]. cbn [fst snd].
-      unfold bind at 1.
-      rewrite (cblock_branch (S f) k (S m) ((ks ++ kc) ++ kt) e ltac:(lia) Hwe ltac:(lia)). rewrite !app_length.
-      destruct (block_code (length ks + length kc + length kt) e) as [ce ke]. cbn [fst snd].
-      unfold ret. rewrite !nlen_I, <- !app_assoc, !I_app. cbn [I map app]. reflexivity.
-  Qed.
-
-  Lemma pop_between_stmt k s : pop_between (embed_stmt k s) = if is_expr_stmt s then [SI opPopTop] else [].
-  Proof. destruct s; cbn [VarProgFacts.embed_stmt is_expr_stmt]; unfold pop_between; try reflexivity. rewrite embed_is_expression; reflexivity. Qed.
-  Lemma nil_after_stmt k s : nil_after (embed_stmt k s) = if is_expr_stmt s then [] else [SI opNil].
-  Proof. destruct s; cbn [VarProgFacts.embed_stmt is_expr_stmt]; unfold nil_after; try reflexivity. rewrite embed_is_expression; reflexivity. Qed.
-
-  Lemma cs_program f : forall l k m ks, l <> [] ->
-    k + ndecls l <= length names -> wf_stmts k l = true -> max_height l <= f ->
-    cs_loop (S f) (embed_stmts names k l) (pstate k m ks) =
-    inr (I (fst (pcode k (length ks) l)), pstate (k + ndecls l) (m + nblocks l) (ks ++ snd (pcode k (length ks) l))).
-  Proof.
-    induction l as [|s r IH]; intros k m ks Hne Hk Hwf Hh; [contradiction|].
+    intros Hst. induction l as [|s r IH]; intros k tabs t ks loops top Hne Hh Hk Hwf Htop Hg Ht; [contradiction|].
     rewrite wf_stmts_cons in Hwf. apply andb_true_iff in Hwf. destruct Hwf as [Hws Hwr].
     rewrite max_height_cons in Hh. rewrite embed_stmts_cons.
     assert (Hnk : next_k k s <= length names) by (rewrite <- ndecls_cons in Hk; lia).
-    pose proof (compile_stmt k m ks s f Hnk Hws ltac:(lia)) as Hc.
+    destruct (Hst s k tabs t ks loops top ltac:(lia) Hnk Hws Htop Hg Ht) as [tabs1 [Hc [Hg1 Hx1]]].
     destruct r as [|s2 r2].
     - (* the last statement *)
-      cbn [embed_stmts cs_loop]. rewrite pcode_single. unfold bind. rewrite Hc.
-      destruct (stmt_code k (length ks) s) as [c kk]. cbn [fst snd]. unfold ret.
-      rewrite nil_after_stmt, I_app. rewrite <- ndecls_cons, <- nblocks_cons. cbn [ndecls nblocks]. rewrite !Nat.add_0_r.
-      destruct (is_expr_stmt s); reflexivity.
+      exists tabs1. split; [|split; [|exact Hx1]].
+      + cbn [embed_stmts embed_list cs_loop]. rewrite pcode_single. unfold bind. rewrite Hc.
+        destruct (stmt_code k (length ks) s) as [c kk]. cbn [fst snd]. unfold ret.
+        rewrite nil_after_stmt, I_app. destruct (is_expr_stmt s); reflexivity.
+      + rewrite <- ndecls_cons. cbn [ndecls]. rewrite Nat.add_0_r. exact Hg1.
     - (* more statements follow *)
       assert (Hr : s2 :: r2 <> []) by discriminate.
-      rewrite (embed_stmts_cons (next_k k s) s2 r2), cs_loop_cons, <- (embed_stmts_cons (next_k k s) s2 r2).
-      unfold bind at 1. rewrite Hc.
-      destruct (stmt_code k (length ks) s) as [c kk] eqn:Es. cbn [fst snd].
-      unfold bind at 1.
-      rewrite (IH (next_k k s) (next_m m s) (ks ++ kk) Hr ltac:(rewrite ndecls_cons; exact Hk) Hwr ltac:(lia)).
-      rewrite app_length, pcode_cons2, Es.
-      destruct (pcode (next_k k s) (length ks + length kk) (s2 :: r2)) as [cr kr]. cbn [fst snd].
-      unfold ret. rewrite pop_between_stmt, ndecls_cons, nblocks_cons, <- app_assoc, !I_app.
-      destruct (is_expr_stmt s); reflexivity.
+      assert (Ht1 : t < length tabs1) by (destruct Hx1 as [Hl _]; lia).
+      destruct (stmt_code k (length ks) s) as [c kk] eqn:Es. cbn [fst snd] in Hc.
+      destruct (IH (next_k k s) tabs1 t (ks ++ kk) loops top Hr ltac:(lia) ltac:(rewrite ndecls_cons; exact Hk) Hwr Htop Hg1 Ht1)
+        as [tabs2 [Hc2 [Hg2 Hx2]]].
+      exists tabs2. split; [|split; [|exact (ext_trans _ _ _ Hx1 Hx2)]].
+      + rewrite (embed_stmts_cons names (next_k k s) s2 r2), cs_loop_cons, <- (embed_stmts_cons names (next_k k s) s2 r2).
+        unfold bind at 1. rewrite Hc. unfold bind at 1. rewrite Hc2.
+        rewrite app_length, pcode_cons2, Es.
+        destruct (pcode (next_k k s) (length ks + length kk) (s2 :: r2)) as [cr kr]. cbn [fst snd].
+        unfold ret. rewrite pop_between_stmt, <- app_assoc, !I_app.
+        destruct (is_expr_stmt s); reflexivity.
+      + rewrite <- ndecls_cons. exact Hg2.
   Qed.
 
+  (* a whole block: opens a table, compiles the statements (Nil for none), closes it *)
+  Lemma cblock_good f : stmt_ok f -> forall l k tabs t ks loops,
+    max_height l <= f -> k <= length names -> wf_stmts false k l = true -> tabs_good k tabs -> t < length tabs ->
+    exists tabs', cblock (S f) (embed_stmts names k l) (mkst tabs t ks loops) =
+                  inr (I (fst (block_code k (length ks) l)), mkst tabs' t (ks ++ snd (block_code k (length ks) l)) loops) /\
+                  tabs_good k tabs' /\ ext tabs tabs'.
+  Proof.
+    intros Hst l k tabs t ks loops Hh Hk Hwf Hg Ht.
+    destruct (open_block_good k tabs t ks loops Hg Ht) as [tabs1 [Ho [Hg1 [Hx1 [Hl1 Hp1]]]]].
+    unfold cblock. unfold bind at 1. rewrite Ho.
+    destruct l as [|s r].
+    - exists tabs1. split; [|split; assumption].
+      cbn [embed_stmts embed_list]. rewrite block_code_nil. cbn [fst snd]. unfold bind, ret.
+      rewrite (close_block_to tabs1 (length tabs) t ks loops Hp1), app_nil_r. reflexivity.
+    - assert (Hne : s :: r <> []) by discriminate.
+      pose proof (wf_false_ndecls _ _ Hwf) as Hnd.
+      destruct (cs_list f Hst (s :: r) k tabs1 (length tabs) ks loops false Hne Hh ltac:(lia) Hwf ltac:(discriminate) Hg1 ltac:(lia))
+        as [tabs2 [Hc [Hg2 Hx2]]].
+      exists tabs2. rewrite Hnd, Nat.add_0_r in Hg2. split; [|split; [exact Hg2|exact (ext_trans _ _ _ Hx1 Hx2)]].
+      rewrite embed_stmts_cons. rewrite embed_stmts_cons in Hc.
+      unfold bind at 1. rewrite Hc. rewrite block_code_cons.
+      destruct (pcode k (length ks) (s :: r)) as [c kk]. cbn [fst snd].
+      unfold bind, ret. rewrite (close_block_to tabs2 (length tabs) t _ loops); [reflexivity|].
+      destruct Hx2 as [_ Hpp]. rewrite Hpp by lia. exact Hp1.
+  Qed.
+
+  Theorem compile_stmt : forall f, stmt_ok f.
+  Proof.
+    induction f as [f IH] using lt_wf_ind.
+    intros s k tabs t ks loops top Hh Hk Hwf Htop Hg Ht.
+    destruct s as [e|i e|e|c tb eb|c b].
+    - (* x := e *)
+      cbn [embed_stmt stmt_code next_k wf_stmt sheight] in *.
+      apply andb_true_iff in Hwf. destruct Hwf as [Hto Hwf]. rewrite (Htop Hto) in *.
+      rewrite compile_NVar.
+      destruct (cexp (length ks) e) as [c kk] eqn:Ee.
+      destruct (insert_next k tabs (ks ++ kk) loops Hg ltac:(lia)) as [tabs1 [Hin [Hg1 Hx1]]].
+      exists tabs1. split; [|split; assumption].
+      unfold bind at 1. rewrite (compile_exp k tabs 0 ks loops e f Hg ltac:(lia) Ht Hwf Hh), Ee. cbn [fst snd].
+      unfold bind, cur. cbn [mkst st_stack mw w_tab]. fold (mw 0 (ks ++ kk) loops). fold (mkst tabs 0 (ks ++ kk) loops).
+      rewrite Hin.
+      unfold store_sym, bind, is_root, cur, ret. cbn [mkst st_stack mw w_root sym_of sy_index].
+      rewrite I_app. reflexivity.
+    - (* x = e *)
+      cbn [embed_stmt stmt_code next_k wf_stmt sheight] in *.
+      apply andb_true_iff in Hwf. destruct Hwf as [Hi Hwf]. apply Nat.ltb_lt in Hi.
+      exists tabs. split; [|split; [exact Hg|apply ext_refl]].
+      rewrite compile_NAssign_eq. unfold bind at 1.
+      rewrite (resolve_good k tabs t ks loops i Hg Hk Ht Hi).
+      cbn [rs_sym sym_of sy_const]. unfold bind.
+      rewrite (compile_exp k tabs t ks loops e f Hg Hk Ht Hwf Hh).
+      destruct (cexp (length ks) e) as [c kk]. cbn [fst snd].
+      unfold ret, store_res. cbn [rs_scope rs_sym sym_of sy_index]. rewrite I_app. reflexivity.
+    - (* e *)
+      cbn [embed_stmt stmt_code next_k wf_stmt sheight] in *.
+      exists tabs. split; [|split; [exact Hg|apply ext_refl]].
+      exact (compile_exp k tabs t ks loops e (S f) Hg Hk Ht Hwf ltac:(lia)).
+    - (* if c { tb } else { eb } *)
+      rewrite wf_SIf in Hwf. apply andb_true_iff in Hwf. destruct Hwf as [Hwct Hwe].
+      apply andb_true_iff in Hwct. destruct Hwct as [Hwc Hwt].
+      rewrite sheight_SIf in Hh. destruct f as [|f]; [lia|]. cbn [next_k] in *.
+      assert (Hst : stmt_ok f) by (apply IH; lia).
+      rewrite embed_SIf, code_SIf, compile_NIf.
+      destruct (cexp (length ks) c) as [cc kc] eqn:Ec.
+      destruct (cblock_good f Hst tb k tabs t (ks ++ kc) loops ltac:(lia) Hk Hwt Hg Ht) as [tabs1 [Hc1 [Hg1 Hx1]]].
+      rewrite app_length in Hc1.
+      destruct (block_code k (length ks + length kc) tb) as [ct kt] eqn:Et. cbn [fst snd] in Hc1.
+      assert (Ht1 : t < length tabs1) by (destruct Hx1 as [Hl _]; lia).
+      destruct (cblock_good f Hst eb k tabs1 t ((ks ++ kc) ++ kt) loops ltac:(lia) Hk Hwe Hg1 Ht1) as [tabs2 [Hc2 [Hg2 Hx2]]].
+      rewrite !app_length in Hc2.
+      destruct (block_code k (length ks + length kc + length kt) eb) as [ce ke] eqn:Ee. cbn [fst snd] in Hc2.
+      exists tabs2. split; [|split; [exact Hg2|exact (ext_trans _ _ _ Hx1 Hx2)]].
+      unfold bind at 1. rewrite (compile_exp k tabs t ks loops c (S f) Hg Hk Ht Hwc ltac:(lia)), Ec. cbn [fst snd].
+      unfold bind at 1. rewrite Hc1. unfold bind at 1. rewrite Hc2.
+      unfold ret. rewrite !nlen_I, <- !app_assoc, !I_app. cbn [I map app]. reflexivity.
+    - (* for c { b } *)
+      rewrite wf_SWhile in Hwf. apply andb_true_iff in Hwf. destruct Hwf as [Hwc Hwb].
+      rewrite sheight_SWhile in Hh. destruct f as [|f]; [lia|]. cbn [next_k] in *.
+      assert (Hst : stmt_ok f) by (apply IH; lia).
+      rewrite embed_SWhile, code_SWhile, compile_NFor_cond.
+      destruct (open_block_good k tabs t ks loops Hg Ht) as [tabs1 [Ho [Hg1 [Hx1 [Hl1 Hp1]]]]].
+      destruct (cexp (length ks) c) as [cc kc] eqn:Ec.
+      destruct (cblock_good f Hst b k tabs1 (length tabs) (ks ++ kc) ((false, 0) :: loops) ltac:(lia) Hk Hwb Hg1 ltac:(lia))
+        as [tabs2 [Hc2 [Hg2 Hx2]]].
+      rewrite app_length in Hc2.
+      destruct (block_code k (length ks + length kc) b) as [cb kb] eqn:Eb. cbn [fst snd] in Hc2.
+      exists tabs2. split; [|split; [exact Hg2|exact (ext_trans _ _ _ Hx1 Hx2)]].
+      unfold bind at 1. rewrite Ho. unfold bind at 1. rewrite push_loop_mkst.
+      unfold bind at 1.
+      rewrite (compile_exp k tabs1 (length tabs) ks ((false, 0) :: loops) c (S f) Hg1 Hk ltac:(lia) Hwc ltac:(lia)), Ec. cbn [fst snd].
+      unfold bind at 1. rewrite Hc2. unfold bind at 1. rewrite pop_loop_mkst.
+      unfold bind at 1. rewrite (close_block_to tabs2 (length tabs) t _ loops) by (destruct Hx2 as [_ Hpp]; rewrite Hpp by lia; exact Hp1).
+      cbv zeta. unfold ret. rewrite <- !I_app, patch_I, <- I_app. rewrite !nlen_I.
+      replace (nlenN cb + 2 + 1 + 2 + 1)%N with (nlenN cb + 6)%N by lia.
+      rewrite <- !app_assoc.
+      replace (nlenN (cc ++ [opPopJumpForwardIfFalse; (nlenN cb + 6)%N] ++ cb ++ [opPopTop]))
+        with (nlenN cc + 2 + nlenN cb + 1)%N
+        by (unfold nlenN; rewrite !app_length; cbn [length]; lia).
+      reflexivity.
+  Qed.
+
+  (* ---------------------------------------------------------------- the program *)
   Lemma strip_I l : map (fun s => match s with SI n => n | _ => PLACEHOLDER end) (I l) = l.
   Proof. unfold I. rewrite map_map. induction l; cbn; congruence. Qed.
 
@@ -348,21 +423,23 @@ Section Names.
   Proof.
     unfold collect_decls. induction l as [|s r IH]; intros k; [reflexivity|].
     rewrite embed_stmts_cons.
-    destruct s as [e|i e|e|c t e]; cbn [VarProgFacts.embed_stmt]; try apply IH.
+    destruct s as [e|i e|e|c t e|c b]; cbn [embed_stmt]; try apply IH.
     destruct e; cbn [embed]; apply IH.
   Qed.
 
   Theorem compile_var_program l f :
-    l <> [] -> ndecls l <= length names -> wf_stmts 0 l = true -> max_height l <= f ->
-    compile_program (S f) [] (embed_stmts names 0 l) =
-    inr (Code main_id main_id false 0 (fst (pcode 0 0 l)) (snd (pcode 0 0 l)) [] [] [],
-         root_tb (ndecls l) (nblocks l) :: blocks (nblocks l)).
+    l <> [] -> ndecls l <= length names -> wf_stmts true 0 l = true -> max_height l <= f ->
+    exists tabs, compile_program (S f) [] (embed_stmts names 0 l) =
+                 inr (Code main_id main_id false 0 (fst (pcode 0 0 l)) (snd (pcode 0 0 l)) [] [] [], tabs).
   Proof.
-    intros Hne Hn Hwf Hh. unfold compile_program. rewrite init_is_pstate.
+    intros Hne Hn Hwf Hh.
+    destruct (cs_list f (compile_stmt f) l 0 (st_tabs (init_state [])) 0 [] [] true Hne Hh Hn Hwf (fun _ => eq_refl)
+                init_tabs_good ltac:(cbn; lia)) as [tabs [Hc _]].
+    exists tabs. unfold compile_program. rewrite init_is_mkst.
     unfold bind at 1. unfold ret at 1. unfold bind at 1.
-    rewrite (collect_decls_stmts (pstate 0 0 []) l 0).
+    rewrite (collect_decls_stmts _ l 0).
     destruct l as [|s r]; [contradiction|].
-    rewrite embed_stmts_cons.
+    rewrite embed_stmts_cons. rewrite embed_stmts_cons in Hc.
     change (fix cs (l0 : list node) : M (list slot) :=
               match l0 with
               | [] => ret []
@@ -370,11 +447,10 @@ Section Names.
               | x :: (_ :: _) as r0 => bind (compile (S f) x) (fun a => bind (cs r0) (fun b => ret (a ++ pop_between x ++ b)))
               end) with (cs_loop (S f)).
     change (match embed_stmts names (next_k 0 s) r with [] => _ | _ :: _ => _ end)
-      with (cs_loop (S f) (embed_stmt 0 s :: embed_stmts names (next_k 0 s) r)).
-    rewrite <- embed_stmts_cons. unfold bind at 1.
-    rewrite (cs_program f (s :: r) 0 0 [] Hne Hn Hwf Hh). cbn [length app Nat.add].
+      with (cs_loop (S f) (embed_stmt names 0 s :: embed_stmts names (next_k 0 s) r)).
+    unfold bind at 1. rewrite Hc. cbn [length app Nat.add].
     destruct (pcode 0 0 (s :: r)) as [c ks]. cbn [fst snd].
-    unfold bind, cur, ret. cbn [gstate st_stack st_tabs main_w with_tab w_id w_name w_consts w_names w_children].
+    unfold bind, cur, ret. cbn [mkst st_stack st_tabs mw w_id w_name w_consts w_names w_children].
     rewrite strip_I. reflexivity.
   Qed.
 End Names.
